@@ -537,6 +537,14 @@ theorem podEvent_pods (c : Ctl) (old : Option Pod) (p : Pod) (k : PodEvKind) :
         | inr h => exact (hadd _ _ _).2 e h
 
 /-- no handler touches the Pod and EndpointSlice stores, and only replays are queued -/
+theorem idReplays_notPod (c : Ctl) (o p : Pod) : ∀ e ∈ idReplays c o p, e.notPod := by
+  unfold idReplays
+  split
+  · intro e he
+    obtain ⟨sl, _, rfl⟩ := List.mem_map.mp he
+    trivial
+  · intro e he; cases he
+
 theorem handle_st (c : Ctl) (e : Ev) : SameSt c (handle c e).1 ∧ ∀ x ∈ (handle c e).2, x.notPod := by
   cases e with
   | podAdd v =>
@@ -548,7 +556,12 @@ theorem handle_st (c : Ctl) (e : Ev) : SameSt c (handle c e).1 ∧ ∀ x ∈ (ha
     simp only [handle]
     split
     · exact ⟨⟨rfl, rfl⟩, by simp⟩
-    · exact podEvent_pods _ _ _ _
+    · rename_i cur _
+      refine ⟨(podEvent_pods c (some o) cur .upd).1, ?_⟩
+      intro x hx
+      cases List.mem_append.mp hx with
+      | inl h => exact idReplays_notPod c o cur x h
+      | inr h => exact (podEvent_pods c (some o) cur .upd).2 x h
   | podDel v => exact podEvent_pods _ _ _ _
   | svcAdd v => have := handle_pc c (.svcAdd v) trivial; exact ⟨⟨this.1.2.2.1, this.1.2.2.2⟩, by rw [this.2]; simp⟩
   | svcUpd o v => have := handle_pc c (.svcUpd o v) trivial; exact ⟨⟨this.1.2.2.1, this.1.2.2.2⟩, by rw [this.2]; simp⟩
@@ -631,13 +644,15 @@ theorem pod_write_podCache (c : Ctl) (v : Pod) (c' : Ctl) (hph : v.phase ≠ "F"
       simp only [Bool.decide_and, Bool.and_eq_true, decide_eq_true_eq] at ho
       have : o = p := hk o hom p hp ((key_of_names o v ho.1 ho.2).trans hpk.symm)
       rw [this]
-  have hev : ∃ old kind, handle c1 (podEvOf c v) = podEvent c1 old v kind ∧
-      kind ≠ .del ∧ (kind = .add → findPod c.pods v.ns v.name = none) := by
+  have hev : ∃ (old : Option Pod) (kind : PodEvKind) (xs : List Ev),
+      handle c1 (podEvOf c v) = ((podEvent c1 old v kind).1, xs ++ (podEvent c1 old v kind).2) ∧
+      (∀ e ∈ xs, e.notPod) ∧ kind ≠ .del ∧ (kind = .add → findPod c.pods v.ns v.name = none) := by
     unfold podEvOf
     cases hfo : findPod c.pods v.ns v.name with
-    | none => exact ⟨none, .add, by simp [handle, hfind], by simp, fun _ => rfl⟩
-    | some o => exact ⟨some o, .upd, by simp [handle, hfind], by simp, by simp⟩
-  obtain ⟨old, kind, hhandle, hkind, haddk⟩ := hev
+    | none => exact ⟨none, .add, [], by simp [handle, hfind], by simp, by simp, fun _ => rfl⟩
+    | some o =>
+      exact ⟨some o, .upd, idReplays c1 o v, by simp [handle, hfind], idReplays_notPod c1 o v, by simp, by simp⟩
+  obtain ⟨old, kind, xs, hhandle, hxs, hkind, haddk⟩ := hev
   have hpc := podEvent_pc c1 old v kind (Holds c.pods) h (holds_no_empty c.pods)
     (by
       intro hka ip' ⟨p, hp, hpk, _, _⟩
@@ -656,11 +671,14 @@ theorem pod_write_podCache (c : Ctl) (v : Pod) (c' : Ctl) (hph : v.phase ≠ "F"
           | inl he => exact Or.inr (he.trans hpi)
           | inr hokv => exact absurd ⟨hkind, hokv.2⟩ hnot)
   have hpods := podEvent_pods c1 old v kind
-  have hre := runEvents_pc ((podEvent c1 old v kind).2 ++ []) (podEvent c1 old v kind).1 (by
+  have hre := runEvents_pc (xs ++ (podEvent c1 old v kind).2 ++ []) (podEvent c1 old v kind).1 (by
     intro e he
     rw [List.append_nil] at he
-    exact hpods.2 e he)
-  have hrun : runAll c1 [podEvOf c v] = (runEvents (podEvent c1 old v kind).1 ((podEvent c1 old v kind).2 ++ [])).1 := by
+    cases List.mem_append.mp he with
+    | inl h => exact hxs e h
+    | inr h => exact hpods.2 e h)
+  have hrun : runAll c1 [podEvOf c v] =
+      (runEvents (podEvent c1 old v kind).1 (xs ++ (podEvent c1 old v kind).2 ++ [])).1 := by
     simp only [runAll, runEvents, hhandle]
   show PodCacheOK (runAll c1 _)
   rw [hrun]
